@@ -278,6 +278,19 @@ func c08(env *Env, rep *Report) {
 				refSegs = append(refSegs, Seg{Bytes: p})
 			}
 			ref := c08Run(kind, refSegs, rep)
+			// an empty binary message before / between / after whole packets
+			for at := 0; at <= len(refSegs); at++ {
+				cases++
+				if !env.mine(cases) {
+					continue
+				}
+				segs := append(append(append([]Seg{}, refSegs[:at]...), Seg{Bytes: []byte{}}), refSegs[at:]...)
+				got := c08Run(kind, segs, rep)
+				if got.resps != ref.resps || !bytes.Equal(got.backend, ref.backend) || got.ended != ref.ended || len(got.panics) > 0 {
+					rep.violate("C08/empty-message-changes-behaviour/ws", fmt.Sprintf("empty websocket message before packet %d: %q (reference %q), host bytes %d (reference %d), ended %v (reference %v) panics=%v", at, got.resps, ref.resps, len(got.backend), len(ref.backend), got.ended, ref.ended, got.panics),
+						map[string]any{"noreplay": true})
+				}
+			}
 			for pi, p := range ss.Pkts {
 				for a := 1; a < len(p); a++ {
 					cases++
@@ -287,6 +300,16 @@ func c08(env *Env, rep *Report) {
 					segs := append([]Seg{}, refSegs...)
 					segs[pi] = Seg{Frags: [][]byte{p[:a], p[a:]}}
 					got := c08Run(kind, segs, rep)
+					// ... and with an empty binary message between the two parts (a read that returns no bytes
+					// and no error is a degenerate segment, not the end of the stream)
+					segs2 := append([]Seg{}, refSegs[:pi]...)
+					segs2 = append(segs2, Seg{Bytes: p[:a], NoWait: true}, Seg{Bytes: []byte{}, NoWait: true}, Seg{Bytes: p[a:]})
+					segs2 = append(segs2, refSegs[pi+1:]...)
+					got2 := c08Run(kind, segs2, rep)
+					if got2.resps != ref.resps || !bytes.Equal(got2.backend, ref.backend) || got2.ended != ref.ended || len(got2.panics) > 0 {
+						rep.violate("C08/empty-message-changes-behaviour/ws", fmt.Sprintf("packet %d cut at %d with an empty websocket message in between: %q (reference %q), host bytes %d (reference %d), ended %v (reference %v) panics=%v", pi, a, got2.resps, ref.resps, len(got2.backend), len(ref.backend), got2.ended, ref.ended, got2.panics),
+							map[string]any{"noreplay": true})
+					}
 					if got.resps != ref.resps || !bytes.Equal(got.backend, ref.backend) || len(got.panics) > 0 {
 						rep.violate("C08/ws-fragmented-message-changes-behaviour", fmt.Sprintf("packet %d as frames %d+%d: %q vs %q panics=%v", pi, a, len(p)-a, got.resps, ref.resps, got.panics),
 							map[string]any{"noreplay": true})
